@@ -461,7 +461,7 @@ class Evaluator:
                 recv = self.expr(recv_node, fr)
                 args = [self.expr(a, fr) for a in e.args]
                 kw = {k.arg: self.expr(k.value, fr) for k in e.keywords if k.arg}
-                fr.summary.calls.append(("method:" + meth, [recv] + args, kw, e, tuple(fr.guard)))
+                fr.summary.calls.append(("method:" + meth, [recv] + args, kw, e, tuple(fr.guard), tuple(fr.facts)))
                 if meth == "append" and isinstance(recv, list):
                     recv.append(args[0])
                     return
@@ -1131,7 +1131,7 @@ class Evaluator:
         if isinstance(fv, T) and fv.op == "ite":
             return tm.ite(fv.args[0], self.call_value(_unfz(fv.args[1]), pos, kw, e, fr),
                           self.call_value(_unfz(fv.args[2]), pos, kw, e, fr))
-        fr.summary.calls.append(("value:" + tm.show(fv), pos, kw, e, tuple(fr.guard)))
+        fr.summary.calls.append(("value:" + tm.show(fv), pos, kw, e, tuple(fr.guard), tuple(fr.facts)))
         return tm.app("call", [fv] + pos, tuple(sorted(kw.items())))
 
     def call_ref(self, r, pos, kw, e, fr):
@@ -1141,7 +1141,7 @@ class Evaluator:
             return self.extern(r[1], pos, kw, e, fr)
         if r[0] == "class":
             name = r[1].name + "." + r[2]
-            fr.summary.calls.append((name, pos, kw, e, tuple(fr.guard)))
+            fr.summary.calls.append((name, pos, kw, e, tuple(fr.guard), tuple(fr.facts)))
             return tm.app("new:" + name, pos, tuple(sorted(kw.items())))
         if r[0] == "const":
             return self.call_value(self.const(r[1].name, r[2]), pos, kw, e, fr)
@@ -1149,7 +1149,7 @@ class Evaluator:
 
     def call_fn(self, fi, pos, kw, e, fr, skip_self=False):
         q = fi.qualname
-        fr.summary.calls.append((q, pos, kw, e, tuple(fr.guard)))
+        fr.summary.calls.append((q, pos, kw, e, tuple(fr.guard), tuple(fr.facts)))
         bound = self.bind_call(fi, pos, kw, skip_self=skip_self)
         prim = self.policy.prims.get(q)
         if prim is not None and bound is not None:
@@ -1169,7 +1169,8 @@ class Evaluator:
         fr.summary.loops.extend(sub.loops)
         fr.summary.hazards.extend((h[0], h[1], h[2], tuple(fr.guard) + tuple(h[3]), tuple(fr.facts) + tuple(h[4]), h[5])
                                   for h in sub.hazards)
-        fr.summary.calls.extend((c[0], c[1], c[2], c[3], tuple(fr.guard) + tuple(c[4])) for c in sub.calls)
+        fr.summary.calls.extend((c[0], c[1], c[2], c[3], tuple(fr.guard) + tuple(c[4]),
+                                 tuple(fr.facts) + tuple(c[5] if len(c) > 5 else ())) for c in sub.calls)
         for ex in sub.raises():
             fr.summary.exits.append(Exit(tuple(fr.guard) + ex.guard, "raise", ex.value, ex.node, ex.func, ex.exc,
                                          facts=tuple(fr.facts) + ex.facts))
@@ -1181,7 +1182,7 @@ class Evaluator:
     # ---- methods on values
     def method(self, recv, meth, pos, kw, e, fr):
         ty = tm.tyof(recv)
-        fr.summary.calls.append(("method:" + meth, [recv] + list(pos), kw, e, tuple(fr.guard)))
+        fr.summary.calls.append(("method:" + meth, [recv] + list(pos), kw, e, tuple(fr.guard), tuple(fr.facts)))
         if isinstance(recv, T) and recv.op == "ite" and meth not in ("append",):
             return tm.ite(recv.args[0], self.method(_unfz(recv.args[1]), meth, pos, kw, e, fr),
                           self.method(_unfz(recv.args[2]), meth, pos, kw, e, fr))
@@ -1242,7 +1243,7 @@ class Evaluator:
         if meth == "copy" and not pos:
             return clone(recv)
         if meth in ("read", "write", "close", "tell", "seek", "truncate", "sendall", "recv", "send"):
-            fr.summary.calls.append(("io:" + meth, [recv] + pos, kw, e, tuple(fr.guard)))
+            fr.summary.calls.append(("io:" + meth, [recv] + pos, kw, e, tuple(fr.guard), tuple(fr.facts)))
             rty = {"tell": tm.INT, "recv": tm.BYTES}.get(meth, tm.ANY)
             return T("io", (meth, tm._fz(recv), tuple(tm._fz(p) for p in pos), len(fr.summary.calls)), rty)
         # method on self or on an object of a class of the package
@@ -1254,7 +1255,7 @@ class Evaluator:
 
     # ---- externs (builtins / stdlib), by name
     def extern(self, name, pos, kw, e, fr):
-        fr.summary.calls.append((name, pos, kw, e, tuple(fr.guard)))
+        fr.summary.calls.append((name, pos, kw, e, tuple(fr.guard), tuple(fr.facts)))
         n = name[9:] if name.startswith("builtins.") else name
         try:
             r = self._extern(n, pos, kw, e, fr)
